@@ -422,6 +422,16 @@ func (p *Program) valueOrigins(v ssa.Value) originSet {
 				switch a := x.X.(type) {
 				case *ssa.Alloc, *ssa.FreeVar:
 					rec(a, d+1)
+				case *ssa.FieldAddr:
+					// an unexported field of a struct type of the module: only the module's own field stores (and
+					// copies of whole structs, which carry what such a store put there) can have put a value in it
+					if vals, ok := p.unexportedFieldStores(a); ok {
+						for _, sv := range vals {
+							rec(sv, d+1)
+						}
+					} else {
+						out[unknownOrigin] = true
+					}
 				default:
 					out[unknownOrigin] = true
 				}
@@ -547,4 +557,50 @@ func (p *Program) loadSets() map[*ssa.Function]map[string]bool {
 	}
 	p.loadMemo = direct
 	return direct
+}
+
+// unexportedFieldStores: every value the module stores into the (unexported) field that fa addresses, over all
+// instances of the struct type (field-based). ok=false for exported fields, fields of types declared outside the
+// module, and unnamed struct types: code that is not analysed may write those.
+func (p *Program) unexportedFieldStores(fa *ssa.FieldAddr) ([]ssa.Value, bool) {
+	return p.fieldStoresOf(fa.X.Type(), fa.Field)
+}
+
+// fieldStoresOf: as unexportedFieldStores, for field number idx of the (pointer to a) named struct type t.
+func (p *Program) fieldStoresOf(t types.Type, idx int) ([]ssa.Value, bool) {
+	n := namedOf(t)
+	st := structOf(t)
+	if n == nil || st == nil || n.Obj().Pkg() == nil || !strings.HasPrefix(n.Obj().Pkg().Path(), modPath) || idx >= st.NumFields() {
+		return nil, false
+	}
+	f := st.Field(idx)
+	if f.Exported() && n.Obj().Exported() {
+		return nil, false
+	}
+	key := n.Obj().Pkg().Path() + "." + n.Obj().Name() + "." + f.Name()
+	if p.fieldStoreIdx == nil {
+		p.fieldStoreIdx = map[string][]ssa.Value{}
+		for _, fn := range p.ModFns {
+			for _, b := range fn.Blocks {
+				for _, in := range b.Instrs {
+					s, ok := in.(*ssa.Store)
+					if !ok {
+						continue
+					}
+					a, ok := s.Addr.(*ssa.FieldAddr)
+					if !ok {
+						continue
+					}
+					n2 := namedOf(a.X.Type())
+					st2 := structOf(a.X.Type())
+					if n2 == nil || st2 == nil || n2.Obj().Pkg() == nil || a.Field >= st2.NumFields() {
+						continue
+					}
+					k := n2.Obj().Pkg().Path() + "." + n2.Obj().Name() + "." + st2.Field(a.Field).Name()
+					p.fieldStoreIdx[k] = append(p.fieldStoreIdx[k], s.Val)
+				}
+			}
+		}
+	}
+	return p.fieldStoreIdx[key], true
 }
